@@ -21,6 +21,7 @@ type RunCfg struct {
 	MaxRev    int              `json:"max_reversals"`
 	Race      bool             `json:"race_detection"`
 	NoMapPerm bool             `json:"no_map_order_permutation,omitempty"`
+	NoSelectFork bool          `json:"first_ready_select_case,omitempty"`
 	Params    map[string]int64 `json:"params,omitempty"`
 	Workers   int              `json:"workers"`
 	StepLimit int              `json:"step_limit"`
@@ -132,6 +133,15 @@ func explore(p *Program, cfg RunCfg) (*RunResult, error) {
 		pool.cond.Broadcast()
 	})
 	defer wd.Stop()
+	if os.Getenv("GPV_PROGRESS") != "" {
+		tick := time.NewTicker(5 * time.Second)
+		defer tick.Stop()
+		go func() {
+			for range tick.C {
+				fmt.Fprintf(os.Stderr, "progress %s: %.0fs paths=%d nodes=%d queue=%d\n", cfg.Name, time.Since(t0).Seconds(), atomic.LoadInt64(&pool.paths), atomic.LoadInt64(&pool.nodes), len(pool.queue))
+			}
+		}()
+	}
 	var wg sync.WaitGroup
 	fatal := make(chan string, cfg.Workers)
 	for w := 0; w < cfg.Workers; w++ {
